@@ -455,9 +455,36 @@ def prove(prop_file, allowed_axioms, timeout=1500):
                 if ln and ln < err["line"] and enclosing_lemma(vabs, err["line"]) != t:
                     res["discharged"].append(t)
         return res
-    # recompile the Props file alone to capture Print Assumptions
-    with Lock("coqc-" + prop_file):
-        rc, out = sh(["coqc"] + coq_flags() + [vrel], cwd=COQ, timeout=timeout)
+    # recompile the Props file alone to capture Print Assumptions.  The output
+    # is a function of the compiled development below the Props file (which
+    # includes the files regenerated from /repo on this run): it is cached under a
+    # hash that changes whenever anything below changes.
+    # key: the compiled Props file itself -- a .vo embeds the checksums of the
+    # .vo files it requires (transitively), so any change anywhere below it
+    # changes this hash; plus the source text (the Print Assumptions commands)
+    hh = hashlib.sha256()
+    for f in (vabs + "o", vabs):
+        try:
+            with open(f, "rb") as fh:
+                hh.update(fh.read())
+        except OSError:
+            hh.update(os.urandom(16))
+        hh.update(b"\0")
+    cdir = os.path.join(BUILD, "pa-cache")
+    os.makedirs(cdir, exist_ok=True)
+    cfile = os.path.join(cdir, "%s-%s.out" % (prop_file, hh.hexdigest()[:20]))
+    if os.path.exists(cfile) and os.environ.get("VV_NO_PA_CACHE") != "1":
+        with open(cfile) as fh:
+            out = fh.read()
+        rc = 0
+        res["print_assumptions_cached"] = True
+    else:
+        with Lock("coqc-" + prop_file):
+            rc, out = sh(["coqc"] + coq_flags() + [vrel], cwd=COQ, timeout=timeout)
+        if rc == 0:
+            with open(cfile + ".tmp%d" % os.getpid(), "w") as fh:
+                fh.write(out)
+            os.replace(cfile + ".tmp%d" % os.getpid(), cfile)
     if rc != 0:
         res["failure"] = coq_first_error(out) or {"file": vrel, "line": 0, "lemma": None, "message": out[-800:]}
         return res
